@@ -359,6 +359,9 @@ inductive DStep where
   | enter (a : Nat)            -- cm = A[a].context(); cm.__enter__()
   | exit                            -- innermost cm.__exit__(None, None, None); no-op if none
   | resume (i : Nat) (inp : Inp)
+  | resumeIn (fresh : Bool) (i : Nat) (inp : Inp)
+      -- the resumption is made from ANOTHER contextvars.Context than the driver's own:
+      -- `copy_context().run(g.send, v)` (fresh = false), or `Context().run(...)` / another thread (fresh = true)
 deriving DecidableEq, Repr, Inhabited
 
 structure StepRec where
@@ -377,6 +380,12 @@ def dstep (k : Bool) (fuel : Nat) (s : DStep) (w : World) : Option Out × World 
   | .resume i inp =>
     match resumeGen k fuel i inp { w with pending := w.ctxs w.cur } with
     | (o, w') => (some o, w')
+  | .resumeIn fresh i inp =>
+    -- a new Context (a copy of the driver's, or an empty one), current for the duration of the resumption
+    match resumeGen k fuel i inp
+        { (w.setCtx w.nctx (if fresh then none else w.ctxs w.cur)) with
+          nctx := w.nctx + 1, cur := w.nctx, pending := (if fresh then none else w.ctxs w.cur) } with
+    | (o, w') => (some o, { w' with cur := w.cur })
 
 def runScript (k : Bool) (fuel : Nat) : List DStep → World → List StepRec × World
   | [], w => ([], w)
